@@ -68,16 +68,58 @@ func (m nextHarnessActionMessage) message() {}
 
 type harness struct {
 	*wiring
-	mch                chan imessage
-	activity           Activity
-	active             int32
-	interrupted        int32
-	cancellation       sync.Once
+	mch          chan imessage
+	activity     Activity
+	active       int32
+	interrupted  int32
+	cancellation sync.Once
+	// waiting holds the activations that wait for their answer; an answer and an
+	// interrupting boundary event both claim an activation under waitingLock, so
+	// that exactly one of the normal flow and the exception flow continues
+	waiting            []*activation
+	waitingLock        sync.Mutex
 	eventConsumers     []event.IConsumer
 	eventConsumersLock sync.RWMutex
 
 	once  sync.Once
 	flows []*flow
+}
+
+// activation is one token waiting in the activity for its answer
+type activation struct {
+	interrupted bool
+}
+
+// complete claims the activation for the normal flow; false if an interrupting
+// boundary event has taken the token away
+func (node *harness) complete(act *activation) bool {
+	node.waitingLock.Lock()
+	defer node.waitingLock.Unlock()
+	if act.interrupted {
+		return false
+	}
+	for i := range node.waiting {
+		if node.waiting[i] == act {
+			node.waiting = append(node.waiting[:i], node.waiting[i+1:]...)
+			break
+		}
+	}
+	return true
+}
+
+// interrupt claims every waiting activation for the exception flow; false if
+// there is none (the activity has completed or has already been interrupted)
+func (node *harness) interrupt() bool {
+	node.waitingLock.Lock()
+	defer node.waitingLock.Unlock()
+	if len(node.waiting) == 0 {
+		return false
+	}
+	for _, act := range node.waiting {
+		act.interrupted = true
+	}
+	node.waiting = nil
+	return true
 }
 
 func (node *harness) ConsumeEvent(ev event.IEvent) (result event.ConsumptionResult, err error) {
@@ -157,6 +199,11 @@ func newHarness(wr *wiring, idGenerator id.IGenerator, constructor constructor) 
 		var actionTransformer ActionTransformer
 		if boundaryEvent.CancelActivity() {
 			actionTransformer = func(sequenceFlowId *schema.IdRef, action IAction) IAction {
+				if !node.interrupt() {
+					// the activity has completed in the meantime: its boundary events no
+					// longer react
+					return noAction{}
+				}
 				atomic.StoreInt32(&node.interrupted, 1)
 				node.cancellation.Do(func() {
 					<-node.activity.Cancel()
@@ -178,6 +225,10 @@ func (node *harness) run(ctx context.Context, sender tracing.ISenderHandle) {
 		case msg := <-node.mch:
 			switch m := msg.(type) {
 			case nextHarnessActionMessage:
+				act := &activation{}
+				node.waitingLock.Lock()
+				node.waiting = append(node.waiting, act)
+				node.waitingLock.Unlock()
 				atomic.StoreInt32(&node.active, 1)
 				node.tracer.Send(ActiveBoundaryTrace{Start: true, Node: node.activity.Element()})
 				in := node.activity.NextAction(ctx, m.flow)
@@ -185,7 +236,7 @@ func (node *harness) run(ctx context.Context, sender tracing.ISenderHandle) {
 				go func(bctx context.Context) {
 					select {
 					case rsp := <-in:
-						if atomic.LoadInt32(&node.interrupted) == 1 {
+						if !node.complete(act) || atomic.LoadInt32(&node.interrupted) == 1 {
 							// an interrupting boundary event has taken the token away: a late
 							// answer ends this flow instead of continuing the normal flow
 							rsp = noAction{}
